@@ -13,8 +13,12 @@ def theta_classes(eps, q):
     c = [0.0, 1e-30, 1e-20, eps * (1 - 2 ** -8), eps, eps * (1 + 2 ** -8), 10 * eps, math.sqrt(eps) * 0.5, math.sqrt(eps),
          math.sqrt(eps) * 2, 1e-6 if eps < 1e-10 else 1e-3, 1e-4 if eps < 1e-10 else 1e-2, 1e-2, 0.1, 0.5, 1.0, 2.0, 3.0,
          PI - 1e-1, PI - 1e-3, PI - 1e-6, PI, PI + 1e-6, PI + 1e-2, 4.0, 2 * PI - 1e-6, 2 * PI, 2 * PI + 1e-6, 3 * PI, 5 * PI]
+    # just below the places where a small-angle series is plausibly switched to the closed form (eps^(1/3), eps^(1/4),
+    # eps^(1/6)): a truncated series is worst right below its switch-over
+    c += [eps ** (1.0 / 3) * 0.9, eps ** 0.25 * 0.9, eps ** (1.0 / 6) * 0.9, eps ** (1.0 / 6) * 0.5]
     if not q:
         c += [10.0 ** k for k in range(-29, 0, 2)] + [PI - 10.0 ** -k for k in range(2, 13)] + [PI + 10.0 ** -k for k in range(2, 13, 2)]
+        c += [eps ** (1.0 / 3) * 1.1, eps ** 0.25 * 1.1, eps ** (1.0 / 6) * 1.1, eps ** 0.2]
     return c
 
 
